@@ -72,6 +72,13 @@ out += ["", "Changes that were missed at first and what was strengthened:", "",
         "  structure the decoder filled in, writes it out and reads it back; `C18_r3m1` (per-candidate floor table not cleared: managed mode with a digitally silent channel) - 16th pipeline, managed encodes of the `gated` and `onset` signals;",
         "  `C17_r3m1` (half-rate shift sampled before the packet fetch) only mattered because streaming chains lost the half-rate flag at link boundaries - that is a defect of the pinned tree (section 11, C20 now reads streaming chains",
         "  at half rate); on the repaired tree the change no longer breaks the property and is kept as `superseded`.",
+        "* Round 4 (10 properties; the prompt added: state left by refused calls, arithmetic at the format's extremes, values cached across functions; 20 changes, 13 caught as the checks stood):",
+        "  `C17_r4m2` (`ov_read` spans a link boundary only when a section pointer is given) - C17 passes NULL for the section pointer in 30 % of reads; `C20_r4m1` (odd begin trim rounded up at half rate) - begin-trimmed links",
+        "  (new mode c07b of `vfseek.c`, shared by C07 and C20; it also exposed how little of a begin trim vorbisfile applies, section 11); `C12_r4m1` (`errno` no longer cleared before the read callback) - the in-memory source",
+        "  stopped clearing `errno` itself, failing seek/tell callbacks set it, and the recovery probe reads through to the true end of the data; `C13_r4m2` (`vorbis_block_clear` consults the already cleared dsp state) - half of the",
+        "  encoder scenarios clear dsp before block; `C08_r4m2` (length of a link taken from a foreign multiplexed stream's last page) - C09 multiplexes a foreign logical stream into some links; `C08_r4m1` (plain seek returns early",
+        "  when already at the target, which only a lapped seek can notice) is a C19 matter and C19 reports it. The author of `C03_r4m1` pointed at an unrelated unset-packet read in `ov_pcm_seek_page`; reproduced with a hand-built",
+        "  stream (link data starting with continuation pages), fixed in /repo, and C03 now builds such links and dirties the stack before every scripted call.",
         "<!-- AUTOGEN-END -->"]
 p = os.path.join(V, 'DESIGN.md')
 s = open(p).read()
